@@ -75,6 +75,15 @@ for it in range(N):
         exp.extend("k%d" % j for j in range(len(kids)))
     if list(order) != exp:
         fails.append(dict(clause="strategy-run", observed=repr(order)[:400], expected=repr(exp)[:400]))
+# ---- an algo that keeps the temp dict of each pass (perm["history"].append(target.temp)): a later run starts from a NEW empty temp, the kept ones stay as they were
+class Keeper(Algo):
+    def __call__(self, target):
+        target.temp["pass"] = len(target.perm.setdefault("history", [])); target.perm["history"].append(target.temp); return True
+sk = Strategy("keeper", [Keeper()])
+for _ in range(3): sk.run()
+evals += 1
+if [d_.get("pass") for d_ in sk.perm["history"]] != [0, 1, 2] or len({id(d_) for d_ in sk.perm["history"]}) != 3:
+    fails.append(dict(clause="temp-of-an-earlier-run-is-left-alone", history=[dict(d_) for d_ in sk.perm["history"]]))
 # ---- three levels of strategies: one run of the root runs every strategy of the tree exactly once, parents before children
 for it in range(max(5, N // 40)):
     del ORDER[:]
